@@ -353,6 +353,35 @@ pub fn check(rec: &RRecord) -> CheckOut {
 // ---------------------------------------------------------------------------------------------
 // minimisation: greedy delta debugging on the record while the violation class persists
 
+/// Removing input bytes a..b: keep every later cut where it was relative to the bytes by
+/// shrinking the delivery that covered the removed range (when one delivery covers it entirely).
+fn drain_with_traces(rec: &RRecord, a: usize, b: usize) -> RRecord {
+    let mut cand = rec.clone();
+    cand.input.drain(a..b);
+    for t in &mut cand.traces {
+        let mut off = 0usize;
+        for i in 0..t.events.len() {
+            if let Ev::Deliver { k, scribble } = t.events[i].clone() {
+                let k_eff = k.min(rec.input.len() - off.min(rec.input.len()));
+                if a >= off && b <= off + k_eff {
+                    let nk = k_eff - (b - a);
+                    if nk == 0 {
+                        t.events.remove(i);
+                    } else {
+                        t.events[i] = Ev::Deliver { k: nk, scribble };
+                    }
+                    break;
+                }
+                off += k_eff;
+                if off > a {
+                    break;
+                }
+            }
+        }
+    }
+    cand
+}
+
 pub fn minimise(rec: &RRecord, class: &str, budget: usize) -> (RRecord, usize) {
     let mut best = rec.clone();
     let mut evals = 0usize;
@@ -407,6 +436,45 @@ pub fn minimise(rec: &RRecord, class: &str, budget: usize) -> (RRecord, usize) {
                 i += 1;
             }
         }
+        // drop an operation together with the input bytes it consumes (canonical model path)
+        let mut i = 0;
+        while i < best.script.len() {
+            let mut pos = 0usize;
+            let mut span: Option<(usize, usize)> = None;
+            for (k, op) in best.script.iter().enumerate() {
+                let c = step(&best.input, pos, op);
+                if c.is_empty() {
+                    break;
+                }
+                if k == i {
+                    span = Some((pos, c[0].1));
+                    break;
+                }
+                pos = c[0].1;
+            }
+            let mut dropped = false;
+            if let Some((a, b)) = span {
+                if b > a {
+                    let mut cand = drain_with_traces(&best, a, b);
+                    cand.script.remove(i);
+                    if still(&cand, &mut evals).is_some() {
+                        best = cand;
+                        dropped = true;
+                    } else {
+                        let mut cand = best.clone();
+                        cand.script.remove(i);
+                        cand.input.drain(a..b);
+                        if still(&cand, &mut evals).is_some() {
+                            best = cand;
+                            dropped = true;
+                        }
+                    }
+                }
+            }
+            if !dropped {
+                i += 1;
+            }
+        }
         // simplify composite operations
         for i in 0..best.script.len() {
             if let ROp::Vec(t, n) = best.script[i].clone() {
@@ -430,6 +498,11 @@ pub fn minimise(rec: &RRecord, class: &str, budget: usize) -> (RRecord, usize) {
             let mut start = 0;
             while start < best.input.len() {
                 let end = (start + w).min(best.input.len());
+                let cand = drain_with_traces(&best, start, end);
+                if still(&cand, &mut evals).is_some() {
+                    best = cand;
+                    continue;
+                }
                 let mut cand = best.clone();
                 cand.input.drain(start..end);
                 if still(&cand, &mut evals).is_some() {
